@@ -50,6 +50,9 @@ type funcInfo struct {
 	Params []ts.Param
 	Rets   []ts.Type
 	Tracer bool
+	// MultiAssigns: the body performs a multi-assignment itself (a caller's multi-assignment that calls it has two such
+	// statements in flight at once: compiler-owned temporaries must not be shared between them)
+	MultiAssigns bool
 }
 
 type G struct {
@@ -971,6 +974,37 @@ func (g *G) multiAssign(depth int) []ts.Stmt {
 		}
 	}
 	sort.Slice(tys, func(i, j int) bool { return tys[i] < tys[j] })
+	// a, b = e, f(...) where f performs a multi-assignment of its own: two such statements are in flight at once
+	if len(ws) >= 2 && g.chance("value-from-multi-assigner", 35) {
+		type cand struct {
+			w *varInfo
+			f *funcInfo
+		}
+		cs := []cand{}
+		for _, w := range ws {
+			if w.Ty.IsSlice() || w.MinLen > 0 {
+				continue
+			}
+			for _, f := range g.callsReturning(w.Ty) {
+				if f.MultiAssigns {
+					cs = append(cs, cand{w, f})
+				}
+			}
+		}
+		if len(cs) > 0 {
+			c := cs[g.intn("ma-callee", 0, len(cs)-1)]
+			others := []*varInfo{}
+			for _, w := range ws {
+				if w != c.w {
+					others = append(others, w)
+				}
+			}
+			o := others[g.intn("ma-other", 0, len(others)-1)]
+			g.tag("multi-assign")
+			g.tag("multi-assign-calls-multi-assigner")
+			return []ts.Stmt{ts.Assign{Names: []string{o.Name, c.w.Name}, Vals: []ts.Expr{g.exprMin(o.Ty, 1, o.MinLen), g.callExpr(c.f, 1)}}}
+		}
+	}
 	if len(tys) > 0 && g.chance("swap", 60) {
 		ty := tys[g.intn("swapty", 0, len(tys)-1)]
 		l := byTy[ty]
@@ -1636,9 +1670,16 @@ func (g *G) funcDef() ts.Stmt {
 	g.loopFactor = 2
 	body := []ts.Stmt{}
 	n := g.intn("fbody", 1, 5)
+	maBefore := g.Tags["multi-assign"] + g.Tags["swap"] + g.Tags["multi-assign-inc-and-itoa"]
 	for i := 0; i < n && g.budget > 0; i++ {
 		body = append(body, g.stmt(1)...)
 	}
+	if g.chance("body-multi-assign", 25) {
+		if st := g.multiAssign(1); st != nil {
+			body = append(body, st...)
+		}
+	}
+	fi.MultiAssigns = g.Tags["multi-assign"]+g.Tags["swap"]+g.Tags["multi-assign-inc-and-itoa"] > maBefore
 	if nr > 0 {
 		r := ts.Return{}
 		for _, rt := range fi.Rets {
